@@ -142,8 +142,10 @@ Definition mkdirs_of (tgt : path) {R} (k : res -> prog R) : prog R :=
   let d := norm (parent tgt) in mkdirs (length d) d k.
 
 (* move_rename / move_copy *)
+(* check_can_rename: fs::symlink_metadata(target).is_ok() => "Target already exists" (LExists does not follow
+   links: a dangling symbolic link at the target blocks the move too — K6 fixed by 041ee27) *)
 Definition move_rename (src tgt : path) (k : io -> prog io) : prog io :=
-  Do (Exists tgt) (fun e =>
+  Do (LExists tgt) (fun e =>
     match e with
     | ROk => k IErr                                            (* "Target already exists" *)
     | RErr _ => mkdirs_of tgt (fun rm =>
@@ -153,7 +155,7 @@ Definition move_rename (src tgt : path) (k : io -> prog io) : prog io :=
                   end)
     end).
 Definition move_copy (src tgt : path) (now : Z) : prog io :=
-  Do (Exists tgt) (fun e =>
+  Do (LExists tgt) (fun e =>
     match e with
     | ROk => Ret IErr
     | RErr _ => mkdirs_of tgt (fun rm =>
@@ -361,6 +363,6 @@ Definition dirs_added (s st : fs) : Prop :=
   (forall q, names st q = names s q \/ (names s q = None /\ names st q = Some NDir)) /\
   inodes st = inodes s /\ locks st = locks s /\ next st = next s.
 
-(* K6: a symbolic link at the target whose chain does not end in anything (Path::exists() is false) *)
+(* a symbolic link whose chain does not end in anything (Path::exists() is false); the class of K6, now refused *)
 Definition dangling_link (s : fs) (p : path) : Prop :=
   (exists t, names s p = Some (NLink t)) /\ exists_follow s p = false.
